@@ -903,6 +903,8 @@ class EmbeddedSignature(Signature):
 
     def parse(self, packet):
         super(EmbeddedSignature, self).parse(packet)
+        # the embedded signature is as long as this subpacket says (type octet excluded)
+        self._sig.header.length = self.header.length - 1
         self._sig.parse(packet)
 
 
